@@ -124,7 +124,9 @@ func vStatsScenario(kind int) {
 		W.cacheScenario(vPick("scenario", 10))
 	} else {
 		vMode = 1
-		W.applyOp([]int{0, 5, 6, 8}[vPick("op", 4)], "op")
+		vPickMax = 3
+		W.applyOp([]int{0, 1, 2, 3, 5, 6, 8}[vPick("op", 7)], "op")
+		vPickMax = 0
 	}
 	if vPick("stats-called-between", 2) == 1 {
 		W.w.Stats()
